@@ -83,6 +83,9 @@ VerifyOK(e) ==
          [] OTHER ->               \* C01 C02 C12: the verdict is exactly Accept (false and error both mean "not accepted")
               /\ ((e.res = "true") <=> Accept(e))
               /\ (Accept(e) => e.res = "true")
+              \* C01: the message of an identity REGISTERED at the position it proved for (leaf = its rate commitment),
+              \* verified unmodified against the same tree (and root sets containing the current root), is accepted
+              /\ (Prop = "C01" /\ e.tag = "unmodified" /\ e.msg \in DOMAIN msgs /\ msgs[e.msg].member => e.res = "true")
 
 \* ---- proving ----
 Unmutated(e) == DOMAIN e.mut = {}
@@ -113,7 +116,7 @@ OutOK(e) ==
 
 ProveOK(e) ==
   IF e.res = "noinstance" THEN TRUE
-  ELSE CASE Prop = "C01" -> (Unmutated(e) /\ Sat(e) /\ Member(e)) => e.res = "ok"
+  ELSE CASE Prop = "C01" -> (Unmutated(e) /\ Sat(e) /\ "leaf" \in DOMAIN e /\ e.leaf = RcOf(e)) => e.res = "ok"
          [] Prop = "C12" -> /\ e.res # "panic"
                             /\ (ClearlyUnsat(e) => e.res = "err")
          [] Prop = "C04" -> /\ (e.res = "ok" /\ PathOK(e) => OutOK(e))
@@ -165,7 +168,8 @@ Advance(e) ==
                       IF n = e.name
                       THEN [s |-> e.s, e |-> e.e, mid |-> e.mid, x |-> e.x, nul |-> e.fields.nul,
                             values |-> SubSeq(e.msg, 129, 288),
-                            clean |-> ("offline" \notin DOMAIN e)]
+                            clean |-> ("offline" \notin DOMAIN e),
+                            member |-> (e.t = "prove" /\ "leaf" \in DOMAIN e /\ e.leaf = RcOf(e) /\ Unmutated(e) /\ Sat(e))]
                       ELSE msgs[n]]
               ELSE IF e.t = "reset" THEN [n \in {} |-> 0] ELSE msgs)
 
